@@ -24,12 +24,12 @@ def constr_loops(k, header, kw):
     mt = re.search(r"while\s+(__fk\d+)\s*<\s*args\.len\(\)", header)
     if mt:
         i = mt.group(1)
-        return f"invariant {i} <= args.len(), args_tast@.len() == {i},\n decreases args.len() - {i},"
+        return f"invariant {i} <= args.len(), args_tast@.len() == {i}, forall|j: int| 0 <= j < {i} ==> elaborated(#[trigger] args@[j], args_tast@[j]),\n decreases args.len() - {i},"
     mt = re.search(r"while\s+(__zk\d+)\s*<\s*args\.len\(\)\s*&&\s*__zk\d+\s*<\s*param_tys\.len\(\)", header)
     if mt:
         i = mt.group(1)
         return (f"invariant {i} <= args.len(), {i} <= param_tys.len(), args_tast@.len() == {i},\n"
-                f"  forall|j: int| 0 <= j < {i} ==> checked_as(#[trigger] args@[j], param_tys@[j], args_tast@[j]),\n decreases args.len() - {i},")
+                f"  forall|j: int| 0 <= j < {i} ==> elaborated(#[trigger] args@[j], args_tast@[j]),\n decreases args.len() - {i},")
     mt = re.search(r"while\s+__mi(\d+)\s*<\s*args_tast\.len\(\)", header)
     if mt:
         i = mt.group(1)
@@ -43,13 +43,13 @@ def named_loops(k, header, kw):
     if mt:
         i = mt.group(1)
         return (f"invariant {i} <= args.len(), args_tast@.len() == {i}, arg_types@.len() == {i},\n"
-                f"  forall|j: int| 0 <= j < {i} ==> inferred(#[trigger] args@[j], args_tast@[j]),\n"
+                f"  forall|j: int| 0 <= j < {i} ==> elaborated(#[trigger] args@[j], args_tast@[j]),\n"
                 f"  forall|j: int| 0 <= j < {i} ==> #[trigger] arg_types@[j] == expr_ty(args_tast@[j]),\n decreases args.len() - {i},")
     mt = re.search(r"while\s+(__zk\d+)\s*<\s*args\.len\(\)\s*&&\s*__zk\d+\s*<\s*params\.len\(\)", header)
     if mt:
         i = mt.group(1)
         return (f"invariant {i} <= args.len(), {i} <= params.len(), args_tast@.len() == {i}, arg_types@.len() == {i},\n"
-                f"  forall|j: int| 0 <= j < {i} ==> checked_as(#[trigger] args@[j], params@[j], args_tast@[j]),\n"
+                f"  forall|j: int| 0 <= j < {i} ==> elaborated(#[trigger] args@[j], args_tast@[j]),\n"
                 f"  forall|j: int| 0 <= j < {i} ==> #[trigger] arg_types@[j] == expr_ty(args_tast@[j]),\n decreases args.len() - {i},")
     return None
 
